@@ -185,10 +185,16 @@ func DefClassMethod(obj slip.Class, name, daemon string, caller slip.Caller) sli
 	}
 	if addCombo {
 		// If there are supers that inherit from this flavor then insert
-		// the new method into the method combinations.
-		for _, ac := range slip.CurrentPackage.AllClasses() {
-			if ac.Inherits(obj) {
-				insertMethod(ac, obj, m, c)
+		// the new method into the method combinations. The inheriting
+		// classes are looked up in every package, not only in the current
+		// one, a class can be visible in more than one package though.
+		seen := map[slip.Class]bool{}
+		for _, p := range slip.AllPackages() {
+			for _, ac := range p.AllClasses() {
+				if !seen[ac] && ac.Inherits(obj) {
+					seen[ac] = true
+					insertMethod(ac, obj, m, c)
+				}
 			}
 		}
 	}
